@@ -261,7 +261,8 @@ private theorem drain_msgs (dec : Bytes → Outcome μ) :
 
 /-- **Clause 1 of C09.** For every sequence of messages (each with the value `v` the decoder
 gives it) and every way `chunks` of splitting their concatenation into reads – every split
-point, one-byte reads, a header split across reads, empty reads – the session extracts exactly
+point, one-byte reads, a header split across reads (an empty chunk is a push of nothing; a 0-byte socket read is EOF in
+`read_frame` and is not a chunk) – the session extracts exactly
 that sequence: each message once, in order, each consuming exactly its own bytes (the second
 component of a frame is the byte string cut from the buffer), and nothing is left over. -/
 theorem chunking_invariant (dec : Bytes → Outcome μ) (msgs : List (μ × Bytes)) (chunks : List Bytes)
@@ -332,6 +333,99 @@ theorem bad_marker_waits_for_frame (dec : Bytes → Outcome μ) (buf : Bytes)
     rw [hs]
     have hn : ¬ lenField buf - 18 ≤ buf.length - 18 := by omega
     simp [hn]
+
+/-- the unsplit stream of well-formed messages followed by anything: the messages are cut off,
+then the tail is drained -/
+private theorem drain_msgs_then (dec : Bytes → Outcome μ) (tail : Bytes) :
+    ∀ (msgs : List (μ × Bytes)), (∀ p ∈ msgs, WfFrame dec p.1 p.2) →
+      drain dec ((msgs.map (·.2)).flatten ++ tail) = (msgs ++ (drain dec tail).1, (drain dec tail).2) := by
+  intro msgs
+  induction msgs with
+  | nil => intro _; simp
+  | cons p ps ih =>
+    intro h
+    obtain ⟨v, m⟩ := p
+    have hp := parseFrame_wf dec v m ((ps.map (·.2)).flatten ++ tail) (h (v, m) (by simp))
+    simp only [List.map_cons, List.flatten_cons, List.append_assoc]
+    rw [drain_some hp, ih (fun q hq => h q (by simp [hq]))]
+    simp
+
+/-- **Clause 1, for a stream that does not consist of messages only.** Whatever follows a
+sequence of messages on the wire (`tail`: garbage, a damaged header, a frame the decoder refuses,
+half a message) and however the whole is split into reads: exactly the messages are extracted
+first – each once, in order, each with exactly its bytes – and then the run goes on as the tail
+alone would. -/
+theorem messages_then_tail (dec : Bytes → Outcome μ) (msgs : List (μ × Bytes)) (tail : Bytes)
+    (chunks : List Bytes) (hwf : ∀ p ∈ msgs, WfFrame dec p.1 p.2)
+    (hsplit : chunks.flatten = (msgs.map (·.2)).flatten ++ tail) :
+    feedAll dec chunks = (msgs ++ (drain dec tail).1, (drain dec tail).2) := by
+  rw [feedAll_eq_drain_flatten, hsplit, drain_msgs_then dec tail msgs hwf]
+
+/-- **What "a BGP message" means in clause 1 (disclosed narrowing).** `WfFrame` asks that the
+decoder accepts the frame. A length-consistent frame the decoder REFUSES – with the real decoder:
+a ROUTE-REFRESH (RFC 2918), any unknown type, any OPEN / UPDATE / NOTIFICATION / KEEPALIVE that
+`Message::from_octets` rejects – ends the session with an error at that point, for every
+chunking: the messages before it are delivered, it and everything after it are not. -/
+theorem refused_frame_ends_session (dec : Bytes → Outcome μ) (msgs : List (μ × Bytes)) (m tail : Bytes)
+    (chunks : List Bytes) (hwf : ∀ p ∈ msgs, WfFrame dec p.1 p.2)
+    (h19 : 19 ≤ m.length) (hlen : lenField m = m.length) (hdec : dec m = .err)
+    (hsplit : chunks.flatten = (msgs.map (·.2)).flatten ++ (m ++ tail)) :
+    feedAll dec chunks = (msgs, .err) := by
+  rw [messages_then_tail dec msgs (m ++ tail) chunks hwf hsplit]
+  have hp : parseFrame dec (m ++ tail) = .err := by
+    unfold parseFrame
+    have h18 : ¬ (m ++ tail).length < 18 := by simp; omega
+    simp only [h18, if_false]
+    rw [lenField_append m tail (by omega), hlen]
+    have : ¬ m.length < 19 := by omega
+    simp only [this, if_false]
+    have hs : checkedSub m.length 18 = some (m.length - 18) := by simp [checkedSub]; omega
+    rw [hs]
+    have hn : m.length - 18 ≤ (m ++ tail).length - 18 := by simp; omega
+    simp only [hn, if_true, takeN_append m tail, hdec]
+  rw [drain_err hp]; simp
+
+/-- `Message::from_octets` refuses every frame whose type octet is not 1..4 – in particular a
+ROUTE-REFRESH (type 5) – whatever the per-type decoders are. With `refused_frame_ends_session`:
+a peer that sends a ROUTE-REFRESH ends the session with an error (the crate never advertises the
+route-refresh capability). -/
+theorem route_refresh_is_refused (body : Bytes → Outcome WireMsg) (f : Bytes)
+    (ht : (f.getD 18 0).toNat ≠ 1 ∧ (f.getD 18 0).toNat ≠ 2 ∧ (f.getD 18 0).toNat ≠ 3 ∧ (f.getD 18 0).toNat ≠ 4) :
+    decodeMsg body f = .err := by
+  unfold decodeMsg
+  split
+  · rfl
+  · split
+    · rfl
+    · split
+      · rfl
+      · split
+        · rfl
+        · rw [if_neg]
+          rintro (h | h | h | h)
+          · exact ht.1 h
+          · exact ht.2.1 h
+          · exact ht.2.2.1 h
+          · exact ht.2.2.2 h
+
+/-- **Clause 2b, for the code as it is, on a whole stream.** `s` is what the peer sends from a
+frame boundary on: its 18 header octets are there, the length field is at least 19, the marker is
+wrong. Then for EVERY chunking nothing from `s` is ever handed to the FSM, and the run ends in an
+error exactly when the octets announced by the length field have arrived; until then the session
+keeps waiting with all of `s` buffered (`bad_marker_waits_for_frame`). "Ends the session with an
+error" is therefore proved in this form: the session can never get past the bad header, and it
+fails – never panics – as soon as `lenField s` octets are there; it is NOT proved (and false for
+the code, which validates the marker only in `Message::from_octets`) that the error is raised as
+soon as the header is buffered. -/
+theorem bad_marker_ends_session (body : Bytes → Outcome WireMsg) (msgs : List (WireMsg × Bytes))
+    (s : Bytes) (chunks : List Bytes) (hwf : ∀ p ∈ msgs, WfFrame (decodeMsg body) p.1 p.2)
+    (_h18 : 18 ≤ s.length) (hlen : 19 ≤ lenField s) (hmarker : s.take 16 ≠ marker)
+    (hsplit : chunks.flatten = (msgs.map (·.2)).flatten ++ s) :
+    feedAll (decodeMsg body) chunks = (msgs, if lenField s ≤ s.length then .err else .ok s) := by
+  rw [messages_then_tail (decodeMsg body) msgs s chunks hwf hsplit]
+  by_cases hc : lenField s ≤ s.length
+  · rw [drain_err (bad_marker_is_error body s hlen hc hmarker)]; simp [hc]
+  · rw [drain_none (bad_marker_waits_for_frame (decodeMsg body) s hlen (by omega))]; simp [hc]
 
 /-- `parse_frame` itself has no reachable panic: the checked subtraction is guarded by the
 `len < 19` test and the slice by the `remaining` test. Any panic is the decoder's. -/
@@ -614,7 +708,11 @@ theorem read_messages_stream (pc : Bool) :
 running" and every decoded message kind (OPEN with allowed / rejected AS and parsable /
 unparsable ADD-PATH capability, UPDATE, NOTIFICATION with and without version error, KEEPALIVE,
 ROUTE-REFRESH), while the connection the message was read from exists. Decided by evaluating all
-7·2·10 entries. (Before
+7·2·9 entries. NOTE: no branch of `handleMsg` returns `.todo` at all (it holds by construction of the
+transcription); the content of the theorem is "`acceptOpen`'s `unwrap` is not reached while a
+connection exists", and what ties the table to `handle_msg` / `handle_event` is the exhaustive `hm`
+correspondence (7·2·8 rows through `verif_handle_msg` on a real `Session`, panics caught).  With the
+real decoder the ROUTE-REFRESH rows are dead (`route_refresh_is_refused`). (Before
 fixes F23/F23b: `.todo` for OPEN in OpenConfirm, Established, and Connect with the timer
 running – see `handleMsg`.) -/
 theorem wire_events_never_todo :
@@ -715,6 +813,33 @@ example :
       simp only [List.mem_cons, List.mem_nil_iff, or_false] at hp
       rcases hp with rfl | rfl <;> refine ⟨by decide, by decide, by decide⟩
     · decide
+
+/-- `refused_frame_ends_session` / `route_refresh_is_refused` on KEEPALIVE ‖ ROUTE-REFRESH ‖ KEEPALIVE, cut
+inside the ROUTE-REFRESH: the KEEPALIVE before it is delivered, then the session ends with an error -/
+example :
+    feedAll (decodeMsg exBody) [exKeepalive ++ marker, [0, 23, 5, 0, 1, 0, 1] ++ exKeepalive]
+      = ([(.keepalive, exKeepalive)], .err) := by
+  apply refused_frame_ends_session (decodeMsg exBody) [(.keepalive, exKeepalive)]
+    (marker ++ [0, 23, 5, 0, 1, 0, 1]) exKeepalive
+  · intro p hp
+    simp only [List.mem_cons, List.mem_nil_iff, or_false] at hp
+    subst hp; exact ⟨by decide, by decide, by decide⟩
+  · decide
+  · decide
+  · exact route_refresh_is_refused exBody _ (by decide)
+  · decide
+
+/-- `bad_marker_ends_session`: hypotheses satisfiable in both branches (marker 00.., length 0xffff,
+18 octets buffered: the session waits; marker 00.., length 19, 19 octets: error) -/
+example : feedAll (decodeMsg exBody) [List.replicate 16 0, [255, 255]]
+      = ([], .ok (List.replicate 16 0 ++ [255, 255])) := by
+  have h := bad_marker_ends_session exBody [] (List.replicate 16 0 ++ [255, 255])
+    [List.replicate 16 0, [255, 255]] (by simp) (by decide) (by decide) (by decide) (by decide)
+  rw [h]; decide
+example : feedAll (decodeMsg exBody) [List.replicate 16 0, [0, 19, 4]] = ([], .err) := by
+  have h := bad_marker_ends_session exBody [] (List.replicate 16 0 ++ [0, 19, 4])
+    [List.replicate 16 0, [0, 19, 4]] (by simp) (by decide) (by decide) (by decide) (by decide)
+  rw [h]; decide
 
 /-- `short_len_is_error`, `bad_marker_is_error`: hypotheses satisfiable -/
 example : 18 ≤ (marker ++ [0, 5]).length ∧ lenField (marker ++ [0, 5]) < 19 := by decide
